@@ -41,6 +41,10 @@ CHECKS = {
                 technique="fault enumeration over well-formed images on the real size_bytes_checked: every truncation point and every corruption of every blockLength/numInGroup/length instance, in a release build on an exact-size buffer ending at a PROT_NONE page with a CPU budget; reference = structural walk with unbounded integers",
                 text="For every image of the bounded space: every n in 0..len (+ trailing junk) and every header-field instance overwritten with 0, 1, fit-1, fit+1, max/2+1, max-1, max; size_bytes_checked(message | top-level group, n) must return (no fault = no read at offset >= n, no budget overrun = work bounded by n) and its (valid, size) must equal the reference walk's. Four genuine defect classes are recorded as known findings; every other disagreement is a violation.",
                 note="Trusted: kernel guard pages, ITIMER_VIRTUAL budget (250 ms for microseconds of legitimate work), the reference walk."),
+    "C09": dict(category="exploration", design_ref="DESIGN.md 5 / C09",
+                technique="bounded-exhaustive enumeration of the complete single-mutation neighbourhood of seed schemas (structure-aware XML operators x token set), all argument vectors up to a length bound, include graphs and raw inputs, each executed on a sanitized (ASan+UBSan, asserts on) sbeppc with a time limit; outcome classification",
+                text="Every mutant is run once into a fresh output directory: allowed outcomes are exit 0, or a non-zero exit with an `Error` diagnostic and no file left behind. Death by signal, sanitizer reports, failed assertions, uncaught exceptions, timeouts, silent non-zero exits and leftovers are violations, identified by their call site (exception type / assertion / sanitizer frame).",
+                note="Trusted: ASan/UBSan as oracles for undefined behaviour, pugixml/fmt as linked. 'All byte strings' is infinite: the claim is the complete neighbourhood over the stated operators and tokens."),
     "C10": dict(category="fault_enumeration", design_ref="DESIGN.md 5 / C10",
                 technique="fault enumeration: every view length n in 0..len (buffer ending at a PROT_NONE page) x every accessor / iterator step / container operation of the generated views, each op individually guarded in a checked build; plus header-steered variants; outcome classes OK / HANDLER / FAULT",
                 text="For every image of the bounded space and every truncation length, each operation of the op table is run on a view bound to exactly n bytes: a fault at or beyond p+n means the operation touched memory outside the view without the assertion handler (violation); the handler firing although the whole addressed sub-object lies inside the buffer is a spurious assertion (violation). Corrupted header fields steer dynamic offsets past the end; there only the first direction is judged.",
